@@ -30,6 +30,9 @@ func stdFlags(name string, args []string) (in, out, dir string, seed int64, work
 func main() {
 	commands["c02"] = runC02
 	commands["ops"] = runOps
+	commands["c14"] = runC14
+	commands["c15"] = runC15
+	commands["c14hash"] = func(a []string) { initCollisions(); runC14Hash(a) }
 	registerMore()
 	if len(os.Args) < 2 {
 		fmt.Fprintln(os.Stderr, "usage: h5v <command> [flags]")
